@@ -386,6 +386,26 @@ func peel(v ssa.Value) (ssa.Value, bool) {
 func reachingStore(load *ssa.UnOp) ssa.Value {
 	al, ok := load.X.(*ssa.Alloc)
 	if !ok {
+		// field of the same struct value, stored earlier in the same block with no call in between
+		if fa, isFA := load.X.(*ssa.FieldAddr); isFA {
+			b := load.Block()
+			idx := -1
+			for i, in := range b.Instrs {
+				if in == ssa.Instruction(load) {
+					idx = i
+				}
+			}
+			for i := idx - 1; i >= 0; i-- {
+				switch x := b.Instrs[i].(type) {
+				case *ssa.Store:
+					if fa2, ok := x.Addr.(*ssa.FieldAddr); ok && fa2.X == fa.X && fa2.Field == fa.Field {
+						return x.Val
+					}
+				case ssa.CallInstruction:
+					return nil
+				}
+			}
+		}
 		return nil
 	}
 	b := load.Block()
